@@ -2010,11 +2010,18 @@ func containerRoot(n *a.Expr) *a.Expr {
 	return n
 }
 
-// mentionsAnyElement returns whether x contains an index expression.
+// isIndexOrSliceExpr returns whether n is "x[i]" or "x[i .. j]": an expression
+// whose value (or the value of a method called on it, such as peek_u32le)
+// depends on the elements of x.
+func isIndexOrSliceExpr(n *a.Expr) bool {
+	return (n.Operator() == a.ExprOperatorIndex) || (n.Operator() == a.ExprOperatorSlice)
+}
+
+// mentionsAnyElement returns whether x contains an index or slice expression.
 func mentionsAnyElement(x *a.Expr) bool {
 	found := false
 	x.AsNode().Walk(func(o *a.Node) error {
-		if !found && (o.Kind() == a.KExpr) && (o.AsExpr().Operator() == a.ExprOperatorIndex) {
+		if !found && (o.Kind() == a.KExpr) && isIndexOrSliceExpr(o.AsExpr()) {
 			found = true
 		}
 		return nil
@@ -2030,7 +2037,7 @@ func mentionsSliceElement(x *a.Expr) bool {
 		if found || (o.Kind() != a.KExpr) {
 			return nil
 		}
-		if o := o.AsExpr(); o.Operator() == a.ExprOperatorIndex {
+		if o := o.AsExpr(); isIndexOrSliceExpr(o) {
 			if r := containerRoot(o); (r.MType() != nil) && r.MType().IsEitherSliceType() {
 				found = true
 			}
@@ -2049,7 +2056,7 @@ func mentionsElementOf(x *a.Expr, root *a.Expr) bool {
 		if found || (o.Kind() != a.KExpr) {
 			return nil
 		}
-		if o := o.AsExpr(); o.Operator() == a.ExprOperatorIndex {
+		if o := o.AsExpr(); isIndexOrSliceExpr(o) {
 			r := containerRoot(o)
 			if r.Eq(root) ||
 				((r.MType() != nil) && r.MType().IsEitherSliceType()) ||
